@@ -3,11 +3,8 @@ package log
 import (
 	"context"
 	"fmt"
-	mathrand "math/rand"
-	"time"
+	"math/rand"
 )
-
-var rand = mathrand.New(mathrand.NewSource(time.Now().UnixNano()))
 
 // Loggerは、iscp-go内で使用するロガーインターフェースです。
 type Logger interface {
@@ -57,5 +54,7 @@ func TrackMessageID(ctx context.Context) string {
 }
 
 func genTrackID() string {
+	// the package-level functions of math/rand are safe for concurrent use (a private *rand.Rand is not): IDs are
+	// numbered from every connection's goroutines at once
 	return fmt.Sprintf("%04d-%04d-%04d", rand.Int31n(10000), rand.Int31n(10000), rand.Int31n(10000))
 }
